@@ -1601,9 +1601,9 @@ def c16_cases(tier, seed):
             # in case the read is still open (a panic count not reached, Tab consumed...): close it
             chunks.append(b"\r")
             keys.append("Enter")
-        between = [rng.choice(["keep", "keep", "raw", "cooked"]) for _ in range(nreads * 3)]
+        between = [rng.choice(["keep", "keep", "raw", "cooked", "lraw", "vtime", "strip"]) for _ in range(nreads * 3)]
         meta = {"paste": paste, "signals": signals, "pause": 1, "between": between, "ends": ends,
-                "raw_initial": rng.random() < 0.4}
+                "raw_initial": rng.choice([False, False, False, "ce", "lraw", "vtime", "strip", "raw"])}
         if panic_at:
             meta["helper_panic_at"] = panic_at
         c = Case(keys, mode=mode, timeout=0, prompt="> ", reads=nreads * 3, chunks=chunks, helper=True, validator="script",
@@ -1686,10 +1686,12 @@ def c16_corr(res, exe, driver, tier, seed, tmp):
     res.rule = ("rawmode: 1-4 reads on one editor; each read is a short key prefix ended by Enter, C-d on an empty line, C-c, an "
                 "undecodable byte, a validator error, or Tab/Enter hitting a scripted helper panic at its k-th call; the prefix may contain the "
                 "suspend key C-z (signals option off: rustyline restores the terminal, signals itself, re-enters raw mode); emacs and vi; "
-                "bracketed paste on/off; the signals option on/off; the terminal initially cooked or raw. The child stops itself "
+                "bracketed paste on/off; the signals option on/off; the terminal initially cooked, without canonical mode and echo, "
+                "raw, raw with VMIN 0 / VTIME 5, with only the four local flags off that raw mode clears (input flags cooked), or "
+                "cooked with ISTRIP / INPCK on. The child stops itself "
                 "(SIGSTOP) after every read; the driver then reads the terminal settings with tcgetattr, compares them field by field "
                 "(flags, speeds, all control characters) with those in force before that read, checks that the last ESC[?2004h of the "
-                "read's output is followed by ESC[?2004l, and switches the terminal to raw or cooked before resuming (so a later read "
+                "read's output is followed by ESC[?2004l, and switches the terminal to one of those modes before resuming (so a later read "
                 "must restore what IT found, not what the first read found).")
     for c, raw in list(zip(cases, raws))[:3]:
         res.samples.append({"keys": c.keys, "results": [l for l in raw["obs"] if l.startswith("R ")], "meta": {k: v for k, v in c.meta.items() if k != "between"}})
